@@ -1027,14 +1027,19 @@ def execute_c14(scn):
             # fault during the building phase (storage read error on the k-th batch): build() must raise, and a build that did not complete is
             # not a build - matching is still refused.  Probed on a separate object.
             st_f = Storage()
-            cnt = {'n': 0, 'fired': False}
+            cnt = {'n': 0, 'fired': False, 'armed': False}
 
             def on_fetch(kind_, tag, ids, key):
-                if kind_ == 'samples':
+                # batch k = the k-th metadata read of the run loop; the fault hits the samples read that follows it
+                # (sample reads before the first batch are the container's trace-size probe)
+                if kind_ == 'meta':
                     cnt['n'] += 1
                     if cnt['n'] == scn['build_fault'] + 1:
-                        cnt['fired'] = True
-                        raise InjectedIOError('injected read error while building')
+                        cnt['armed'] = True
+                elif kind_ == 'samples' and cnt['armed']:
+                    cnt['armed'] = False
+                    cnt['fired'] = True
+                    raise InjectedIOError('injected read error while building')
             st_f.on_fetch = on_fetch
             att_f = _c14_attack(scn, scared, st_f, Tb, vb, 'buildfault')
             try:
